@@ -14,7 +14,7 @@ pub static PROP: Prop = Prop {
     run,
     replay,
     rule: "inputs up to 3116 bytes built to keep many modes competitive: periodic alternations of period 1-7 over {digit, upper, lower, X12 special, EDIFACT punctuation, control, high byte}, random class walks, long digit / upper runs with single interruptions, plus the class-run generator; x mode subsets x lists; the planner is run through data::encodation_plan and its instrumented counters (hook H1) are read: live plans after pruning <= 36 (number of (start mode, current mode) pairs), Plan::step calls <= 216*(n+1)+6, iterations <= n+1; no stopwatch; non-trivial = n >= 200 and >= 3 character classes; distinct by (input, configuration)",
-    assumptions: &["hook H1 counters: steps (next to both Plan::step call sites), max_live (after remove_hopeless_cases), iterations", "the constants follow from the statement's own bound of 36 (start, current) pairs: each live plan steps once and spawns at most 5 stepped switches per character"],
+    assumptions: &["hook H4: the planner run is abandoned once it exceeds 4x the step bound (only a run that already violates the bound is affected)", "hook H1 counters: steps (next to both Plan::step call sites), max_live (after remove_hopeless_cases), iterations", "the constants follow from the statement's own bound of 36 (start, current) pairs: each live plan steps once and spawns at most 5 stepped switches per character"],
     extra: super::no_extra,
     fuzz_runs: 60000,
 };
@@ -24,7 +24,12 @@ pub fn check(c: &EncCase) -> Verdict {
     let flags = modes_to_flags(c.modes);
     let n = c.data.len();
     datamatrix::verif::reset_plan_stats();
+    // hook H4: a search that explodes is stopped at four times the bound and reported with its count
+    // instead of running into the watchdog
+    let bound = 216 * (n + 1) + 6;
+    datamatrix::verif::set_step_budget(Some(4 * bound));
     let r = guard(|| datamatrix::data::encodation_plan(&c.data, &list, flags).is_some());
+    datamatrix::verif::set_step_budget(None);
     let s = datamatrix::verif::last_plan_stats();
     let planned = match r {
         Ok(p) => p,
@@ -37,7 +42,9 @@ pub fn check(c: &EncCase) -> Verdict {
     if s.max_live > 36 {
         return fail(format!("{} candidate plans alive after pruning (bound: 36 (start mode, current mode) pairs); {}", s.max_live, desc()));
     }
-    let bound = 216 * (n + 1) + 6;
+    if s.budget_exceeded {
+        return fail(format!("the planner was stopped after {} Plan::step calls for {} bytes (four times the bound 216*(n+1)+6 = {}), {} plans alive before pruning; {}", s.steps, n, bound, s.max_before_prune, desc()));
+    }
     if s.steps > bound {
         return fail(format!("{} Plan::step calls for {} bytes, bound 216*(n+1)+6 = {}; {}", s.steps, n, bound, desc()));
     }
